@@ -43,12 +43,13 @@ func hashBB(bb [][]byte) uint64 {
 	return h
 }
 
-func c19BigInputs(seed int64) (calls []c19BigCall, digest func() uint64, desc string) {
+func c19BigInputs(seed int64) (calls []c19BigCall, digest func() uint64, desc string, sortedKeys []string) {
 	r := gen.NewRand(seed, "C19", "big", 0)
 	// keys: sorted, unique, shared prefixes
 	nk := 300007
 	seen := map[string]struct{}{}
 	keys := make([]string, 0, nk)
+	defer func() { sortedKeys = keys }()
 	for len(keys) < nk {
 		b := make([]byte, 3+r.Intn(5))
 		for i := range b {
@@ -194,7 +195,7 @@ func c19BigInputs(seed int64) (calls []c19BigCall, digest func() uint64, desc st
 }
 
 func c19BigEnv(w *mon.W) {
-	calls, digest, desc := c19BigInputs(w.Cfg.Seed)
+	calls, digest, desc, keys := c19BigInputs(w.Cfg.Seed)
 	d0 := digest()
 	prev := runtime.GOMAXPROCS(1)
 	base := make([]uint64, len(calls))
@@ -224,6 +225,43 @@ func c19BigEnv(w *mon.W) {
 		}
 	}
 	w.Bucket("big-args/repetition")
+	// One long-lived, shared library-built object queried a great many times: "its result depends only on its arguments"
+	// includes the receiver, not how often it has been asked (round 11 seeded a histogram inside SigBits that is cleared
+	// by bumping a uint16 generation: exactly 65 536 queries after a slot was written it is live again).
+	{
+		sb := sigbits.New(keys[:4000])
+		type q struct{ s, e, m int32 }
+		qs := []q{{0, 4000, 16}, {0, 4000, 64}, {5, 7, 16}, {100, 103, 20}, {3990, 4000, 8}, {2000, 2002, 64}, {17, 19, 1}, {1000, 3000, 12}}
+		firsts := make([]uint64, len(qs))
+		ask := func(i int) uint64 {
+			a, b := sb.CountPrefixes(qs[i].s, qs[i].e, qs[i].m)
+			return gen.Hash64(uint64(uint32(a)), hashI32(b))
+		}
+		for i := range qs {
+			firsts[i] = ask(i)
+		}
+		n := w.Cfg.Pick(140000, 400000)
+		for k := 0; k < n; k++ {
+			i := 2 + k%6 // the narrow ranges ...
+			if k%5000 == 4999 {
+				i = (k / 5000) % 2 // ... and now and then a wide one
+			}
+			if i == 7 && k%64 != 7 {
+				i = 2
+			}
+			w.Op = "phase F long-lived SigBits.CountPrefixes"
+			if h := ask(i); h != firsts[i] {
+				w.Fail("result-depends-on-earlier-calls/SigBits.CountPrefixes(shared)", mon.D{"function": "SigBits.CountPrefixes", "query": fmt.Sprint(qs[i]), "queries_on_this_object_so_far": k + len(qs) + 1,
+					"first_hash": fmt.Sprintf("%016x", firsts[i]), "hash": fmt.Sprintf("%016x", h), "what": "one SigBits over 4000 keys, the same few queries again and again"})
+				return
+			}
+			if k&4095 == 0 {
+				w.Tick()
+			}
+		}
+		ev += int64(n)
+		w.Bucket("big-args/long-lived-object")
+	}
 	// Crowd: 4 x GOMAXPROCS goroutines make the SAME call on the same shared arguments at once (C19's quantifier: any
 	// number of goroutines, any schedule). Three callers never exhaust anything; as many callers as there are Ps, each
 	// holding one unit of a bounded resource while waiting for more, do (round 10: ToArray on 8192+ words).
